@@ -59,7 +59,33 @@ def SPEC : List (String × List (String × Nat × Nat)) :=
       ("version_info.file_os", 56, 4), ("version_info.file_type", 60, 4), ("version_info.file_subtype", 64, 4),
       ("version_info.file_date_hi", 68, 4), ("version_info.file_date_lo", 72, 4),
       ("cv_record.data_size", 76, 4), ("cv_record.rva", 80, 4), ("misc_record.data_size", 84, 4), ("misc_record.rva", 88, 4),
-      ("reserved0[0]", 92, 4), ("reserved0[1]", 96, 4), ("reserved1[0]", 100, 4), ("reserved1[1]", 104, 4)])]
+      ("reserved0[0]", 92, 4), ("reserved0[1]", 96, 4), ("reserved1[0]", 100, 4), ("reserved1[1]", 104, 4)]),
+   ("MINIDUMP_HANDLE_OBJECT_INFORMATION", [("next_info_rva", 0, 4), ("info_type", 4, 4), ("size_of_info", 8, 4)]),
+   ("MINIDUMP_HANDLE_DESCRIPTOR", [("handle", 0, 8), ("type_name_rva", 8, 4), ("object_name_rva", 12, 4), ("attributes", 16, 4),
+      ("granted_access", 20, 4), ("handle_count", 24, 4), ("pointer_count", 28, 4)]),
+   ("MINIDUMP_HANDLE_DESCRIPTOR_2", [("handle", 0, 8), ("type_name_rva", 8, 4), ("object_name_rva", 12, 4), ("attributes", 16, 4),
+      ("granted_access", 20, 4), ("handle_count", 24, 4), ("pointer_count", 28, 4), ("object_info_rva", 32, 4), ("reserved0", 36, 4)]),
+   -- Crashpad's minidump extensions (crashpad/minidump/minidump_extensions.h)
+   ("MINIDUMP_SIMPLE_STRING_DICTIONARY_ENTRY", [("key", 0, 4), ("value", 4, 4)]),
+   ("MINIDUMP_ANNOTATION", [("name", 0, 4), ("ty", 4, 2), ("_reserved", 6, 2), ("value", 8, 4)]),
+   ("MINIDUMP_MODULE_CRASHPAD_INFO_LINK", [("minidump_module_list_index", 0, 4), ("location.data_size", 4, 4),
+      ("location.rva", 8, 4)]),
+   ("MINIDUMP_MODULE_CRASHPAD_INFO", [("version", 0, 4), ("list_annotations.data_size", 4, 4), ("list_annotations.rva", 8, 4),
+      ("simple_annotations.data_size", 12, 4), ("simple_annotations.rva", 16, 4), ("annotation_objects.data_size", 20, 4),
+      ("annotation_objects.rva", 24, 4)]),
+   ("MINIDUMP_CRASHPAD_INFO", [("version", 0, 4),
+      ("report_id.data1", 4, 4), ("report_id.data2", 8, 2), ("report_id.data3", 10, 2), ("report_id.data4[0]", 12, 1),
+      ("report_id.data4[1]", 13, 1), ("report_id.data4[2]", 14, 1), ("report_id.data4[3]", 15, 1), ("report_id.data4[4]", 16, 1),
+      ("report_id.data4[5]", 17, 1), ("report_id.data4[6]", 18, 1), ("report_id.data4[7]", 19, 1),
+      ("client_id.data1", 20, 4), ("client_id.data2", 24, 2), ("client_id.data3", 26, 2), ("client_id.data4[0]", 28, 1),
+      ("client_id.data4[1]", 29, 1), ("client_id.data4[2]", 30, 1), ("client_id.data4[3]", 31, 1), ("client_id.data4[4]", 32, 1),
+      ("client_id.data4[5]", 33, 1), ("client_id.data4[6]", 34, 1), ("client_id.data4[7]", 35, 1),
+      ("simple_annotations.data_size", 36, 4), ("simple_annotations.rva", 40, 4), ("module_list.data_size", 44, 4),
+      ("module_list.rva", 48, 4)])]
+
+/-- the handle-data stream header (generated by layouts_c02.py) -/
+def SPEC_HANDLE_DATA_STREAM : List (String × Nat × Nat) :=
+  [("size_of_header", 0, 4), ("size_of_descriptor", 4, 4), ("number_of_descriptors", 8, 4), ("reserved", 12, 4)]
 
 /-- the exception stream: thread id, alignment, the 152-byte `MINIDUMP_EXCEPTION`, the context -/
 def SPEC_EXCEPTION : List (String × Nat × Nat) :=
@@ -86,8 +112,91 @@ theorem layout_matches_spec :
          | some l => withOffsets 0 l == spec
          | none => false)) = true ∧
     withOffsets 0 MINIDUMP_EXCEPTION_STREAM = SPEC_EXCEPTION ∧
-    withOffsets 0 MINIDUMP_SYSTEM_INFO = SPEC_SYSTEM_INFO := by
-  refine ⟨by decide, by decide, by decide⟩
+    withOffsets 0 MINIDUMP_SYSTEM_INFO = SPEC_SYSTEM_INFO ∧
+    withOffsets 0 MINIDUMP_HANDLE_DATA_STREAM = SPEC_HANDLE_DATA_STREAM := by
+  refine ⟨by decide +kernel, by decide, by decide, by decide⟩
+
+/-- the documented `MINIDUMP_MISC_INFO_5` (minidumpapiset.h; `TIME_ZONE_INFORMATION`, `SYSTEMTIME`,
+    `XSTATE_CONFIG_FEATURE_MSC_INFO` inlined): (field, offset, width of one element, elements) -/
+def SPEC_MISC5_HEAD : List (String × Nat × Nat × Nat) :=
+  [("size_of_info", 0, 4, 1), ("flags1", 4, 4, 1), ("process_id", 8, 4, 1), ("process_create_time", 12, 4, 1),
+   ("process_user_time", 16, 4, 1), ("process_kernel_time", 20, 4, 1),
+   ("processor_max_mhz", 24, 4, 1), ("processor_current_mhz", 28, 4, 1), ("processor_mhz_limit", 32, 4, 1),
+   ("processor_max_idle_state", 36, 4, 1), ("processor_current_idle_state", 40, 4, 1),
+   ("process_integrity_level", 44, 4, 1), ("process_execute_flags", 48, 4, 1), ("protected_process", 52, 4, 1),
+   ("time_zone_id", 56, 4, 1),
+   ("time_zone.bias", 60, 4, 1), ("time_zone.standard_name", 64, 2, 32),
+   ("time_zone.standard_date.year", 128, 2, 1), ("time_zone.standard_date.month", 130, 2, 1),
+   ("time_zone.standard_date.day_of_week", 132, 2, 1), ("time_zone.standard_date.day", 134, 2, 1),
+   ("time_zone.standard_date.hour", 136, 2, 1), ("time_zone.standard_date.minute", 138, 2, 1),
+   ("time_zone.standard_date.second", 140, 2, 1), ("time_zone.standard_date.milliseconds", 142, 2, 1),
+   ("time_zone.standard_bias", 144, 4, 1), ("time_zone.daylight_name", 148, 2, 32),
+   ("time_zone.daylight_date.year", 212, 2, 1), ("time_zone.daylight_date.month", 214, 2, 1),
+   ("time_zone.daylight_date.day_of_week", 216, 2, 1), ("time_zone.daylight_date.day", 218, 2, 1),
+   ("time_zone.daylight_date.hour", 220, 2, 1), ("time_zone.daylight_date.minute", 222, 2, 1),
+   ("time_zone.daylight_date.second", 224, 2, 1), ("time_zone.daylight_date.milliseconds", 226, 2, 1),
+   ("time_zone.daylight_bias", 228, 4, 1),
+   ("build_string", 232, 2, 260), ("dbg_bld_str", 752, 2, 40),
+   ("xstate_data.size_of_info", 832, 4, 1), ("xstate_data.context_size", 836, 4, 1),
+   ("xstate_data.enabled_features", 840, 8, 1)]
+
+def expandSpec (l : List (String × Nat × Nat × Nat)) : List (String × Nat × Nat) :=
+  l.flatMap fun (n, off, w, cnt) =>
+    if cnt = 1 then [(n, off, w)] else (List.range cnt).map fun i => (s!"{n}[{i}]", off + i * w, w)
+
+def SPEC_MISC5 : List (String × Nat × Nat) :=
+  expandSpec SPEC_MISC5_HEAD ++
+  ((List.range 64).flatMap fun i =>
+    [(s!"xstate_data.features[{i}].offset", 848 + 8 * i, 4), (s!"xstate_data.features[{i}].size", 852 + 8 * i, 4)]) ++
+  [("process_cookie", 1360, 4)]
+
+/-- **C02.0b** the five misc-info revisions generated from `multi_structs!` are the documented
+    layout: revision 5 field by field, revisions 1..4 its prefixes of 24, 44, 232, 832 bytes. -/
+theorem misc_layout_matches_spec :
+    withOffsets 0 MINIDUMP_MISC_INFO_5 = SPEC_MISC5 ∧
+    MINIDUMP_MISC_INFO = MINIDUMP_MISC_INFO_5.take 6 ∧ MINIDUMP_MISC_INFO_2 = MINIDUMP_MISC_INFO_5.take 11 ∧
+    MINIDUMP_MISC_INFO_3 = MINIDUMP_MISC_INFO_5.take 98 ∧ MINIDUMP_MISC_INFO_4 = MINIDUMP_MISC_INFO_5.take 398 ∧
+    Layout.size MINIDUMP_MISC_INFO = 24 ∧ Layout.size MINIDUMP_MISC_INFO_2 = 44 ∧ Layout.size MINIDUMP_MISC_INFO_3 = 232 ∧
+    Layout.size MINIDUMP_MISC_INFO_4 = 832 ∧ Layout.size MINIDUMP_MISC_INFO_5 = 1364 := by
+  refine ⟨by decide +kernel, by decide +kernel, by decide +kernel, by decide +kernel, by decide +kernel,
+    by decide +kernel, by decide +kernel, by decide +kernel, by decide +kernel, by decide +kernel⟩
+
+/-- the documented validity rules of `MINIDUMP_MISC_INFO*` (Microsoft's MINIDUMP_MISC_INFO_N docs):
+    (field, first revision that has it, flag bit of `Flags1` that says it is valid) -/
+def SPEC_MISC_ACCESSORS : List (String × Nat × Option Nat) :=
+  [("size_of_info", 1, none), ("flags1", 1, none),
+   ("process_id", 1, some 0x1),
+   ("process_create_time", 1, some 0x2), ("process_user_time", 1, some 0x2), ("process_kernel_time", 1, some 0x2),
+   ("processor_max_mhz", 2, some 0x4), ("processor_current_mhz", 2, some 0x4), ("processor_mhz_limit", 2, some 0x4),
+   ("processor_max_idle_state", 2, some 0x4), ("processor_current_idle_state", 2, some 0x4),
+   ("process_integrity_level", 3, some 0x10), ("process_execute_flags", 3, some 0x20),
+   ("protected_process", 3, some 0x80), ("time_zone_id", 3, some 0x40), ("time_zone", 3, some 0x40),
+   ("build_string", 4, some 0x100), ("dbg_bld_str", 4, some 0x100),
+   ("xstate_data", 5, none), ("process_cookie", 5, some 0x200)]
+
+/-- **C02.0c `misc_fields_as_documented`** — the accessor table translated from `misc_accessors!(..)`
+    (which field exists from which revision on, and which `Flags1` bit guards it) is the documented
+    one; and an accessor answers `None` exactly when the struct read is older than the field or the
+    guarding bit is clear — for ALL revisions, flag words and values. A field moved behind another
+    flag, or to another revision, breaks the first part. -/
+theorem misc_fields_as_documented :
+    MISC_ACCESSORS = SPEC_MISC_ACCESSORS ∧
+    (∀ mi name since flag, (miscAccessWith mi name since flag).isSome =
+      (decide (since ≤ mi.ver) && (match flag with
+        | none => true
+        | some fl => (fld mi.vals 1 &&& fl) == fl))) := by
+  refine ⟨by decide, ?_⟩
+  intro mi name since flag
+  unfold miscAccessWith
+  by_cases h : mi.ver < since
+  · have : ¬ (since ≤ mi.ver) := by omega
+    simp [h, this]
+  · have : since ≤ mi.ver := by omega
+    cases flag with
+    | none => simp [h, this]
+    | some fl =>
+      simp only [h, if_false, this, decide_true, Bool.true_and, miscFlagSet]
+      by_cases hb : (fld mi.vals 1 &&& fl == fl) = true <;> simp [hb]
 
 /-- the hand-written system-info layout the model reads with IS the generated one -/
 theorem sysinfo_layout_generated : SYSTEM_INFO_LAYOUT = MINIDUMP_SYSTEM_INFO := by decide
@@ -98,7 +207,12 @@ theorem record_sizes :
     Layout.size MINIDUMP_MODULE = 108 ∧ Layout.size MINIDUMP_MEMORY_DESCRIPTOR = 16 ∧
     Layout.size MINIDUMP_MEMORY_DESCRIPTOR64 = 16 ∧ Layout.size MINIDUMP_MEMORY_INFO = 48 ∧
     Layout.size MINIDUMP_THREAD_NAME = 12 ∧ Layout.size MINIDUMP_UNLOADED_MODULE = 24 ∧
-    Layout.size MINIDUMP_EXCEPTION_STREAM = 168 ∧ Layout.size SYSTEM_INFO_LAYOUT = 56 := by decide
+    Layout.size MINIDUMP_EXCEPTION_STREAM = 168 ∧ Layout.size SYSTEM_INFO_LAYOUT = 56 ∧
+    Layout.size MINIDUMP_HANDLE_DATA_STREAM = 16 ∧ Layout.size MINIDUMP_HANDLE_DESCRIPTOR = 32 ∧
+    Layout.size MINIDUMP_HANDLE_DESCRIPTOR_2 = 40 ∧ Layout.size MINIDUMP_HANDLE_OBJECT_INFORMATION = 12 ∧
+    Layout.size MINIDUMP_CRASHPAD_INFO = 52 ∧ Layout.size MINIDUMP_MODULE_CRASHPAD_INFO = 28 ∧
+    Layout.size MINIDUMP_MODULE_CRASHPAD_INFO_LINK = 12 ∧ Layout.size MINIDUMP_SIMPLE_STRING_DICTIONARY_ENTRY = 8 ∧
+    Layout.size MINIDUMP_ANNOTATION = 12 := by decide
 
 /-! ## 1. integers, records, record lists read back (either byte order, every offset) -/
 
@@ -147,11 +261,12 @@ example : lastOf 3 [(3, [1, 2]), (4, [9]), (3, [7])] = some ([7] : List UInt8) :
 
 /-! ## 3. "reading it back yields exactly the model: the same items in file order" -/
 
-/-- everything `decode` needs from the nine `get_stream` calls -/
+/-- everything `decode` needs from its `get_stream` calls -/
 theorem decode_of {b : Bytes} {d : Dump} (hd : readDump b = .ok d)
     {t : Except Err (List Thread)} {mo : Except Err (List Module)} {m5 m9 : Except Err (List Region)}
     {mi : Except Err (List MemInfo)} {tn : Except Err (List (Nat × List Nat))} {un : Except Err (List UnloadedModule)}
-    {x : Except Err Exception} {sy : Except Err RSysInfo}
+    {x : Except Err Exception} {sy : Except Err RSysInfo} {mc : Except Err MiscInfo} {hn : Except Err (List Handle)}
+    {lm : Except Err (List MapEntry)} {cp : Except Err (List Nat × CrashpadInfo)}
     (h1 : streamRes d b ST_THREAD_LIST (fun s => readThreadList MemSizes.default s b d.endian) = .ok t)
     (h2 : streamRes d b ST_MODULE_LIST (fun s => readModuleList MemSizes.default s b d.endian) = .ok mo)
     (h3 : streamRes d b ST_MEMORY_LIST (fun s => readMemoryList MemSizes.default s b d.endian) = .ok m5)
@@ -160,71 +275,76 @@ theorem decode_of {b : Bytes} {d : Dump} (hd : readDump b = .ok d)
     (h6 : streamRes d b ST_THREAD_NAMES (fun s => readThreadNames MemSizes.default s b d.endian) = .ok tn)
     (h7 : streamRes d b ST_UNLOADED_MODULE_LIST (fun s => readUnloadedModuleList MemSizes.default s b d.endian) = .ok un)
     (h8 : streamRes d b ST_EXCEPTION (fun s => readException s b d.endian) = .ok x)
-    (h9 : streamRes d b ST_SYSTEM_INFO (fun s => readSystemInfo s b d.endian) = .ok sy) :
-    ∃ r, decode b = .ok r ∧ r.endian = d.endian ∧ r.flags = d.header.flags ∧
-      r.threads = t.map (fun l => l.map (rthreadOf b)) ∧
-      r.modules = mo.map (fun l => l.map (mmoduleOf d.endian)) ∧
-      r.memory = pickMemory (m9.map (fun l => l.map (regionOf b))) (m5.map (fun l => l.map (regionOf b))) ∧
-      r.memInfo = mi.map (fun l => l.map mmemInfoOf) ∧
-      r.threadNames = tn ∧
-      r.unloaded = un.map (fun l => l.map munloadedOf) ∧
-      r.exception = x.map (rexceptionOf b) ∧
-      r.sysInfo = sy := by
-  simp only [decode, hd, h1, h2, h3, h4, h5, h6, h7, h8, h9, Res.bind]
-  exact ⟨_, rfl, rfl, rfl, rfl, rfl, rfl, rfl, rfl, rfl, rfl, rfl⟩
+    (h9 : streamRes d b ST_SYSTEM_INFO (fun s => readSystemInfo s b d.endian) = .ok sy)
+    (h10 : streamRes d b ST_MISC_INFO (fun s => readMiscInfo s d.endian) = .ok mc)
+    (h11 : streamRes d b ST_HANDLE_DATA_STREAM (fun s => readHandleData MemSizes.default s b d.endian) = .ok hn)
+    (h12 : streamRes d b ST_LINUX_MAPS (fun s => readLinuxMaps s) = .ok lm)
+    (h13 : streamRes d b ST_CRASHPAD (fun s => readCrashpadInfoRaw MemSizes.default s b d.endian) = .ok cp) :
+    decode b = .ok
+      { endian := d.endian, flags := d.header.flags,
+        threads := t.map (fun l => l.map (rthreadOf b)),
+        modules := mo.map (fun l => l.map (mmoduleOf d.endian)),
+        memory := pickMemory (m9.map (fun l => l.map (regionOf b))) (m5.map (fun l => l.map (regionOf b))),
+        memInfo := mi.map (fun l => l.map mmemInfoOf),
+        threadNames := tn,
+        unloaded := un.map (fun l => l.map munloadedOf),
+        exception := x.map (rexceptionOf b),
+        sysInfo := sy,
+        miscInfo := mc,
+        handles := hn.map (fun l => l.map rhandleOf),
+        linuxMaps := lm,
+        crashpad := cp.map rcrashpadOf } := by
+  simp only [decode, hd, h1, h2, h3, h4, h5, h6, h7, h8, h9, h10, h11, h12, h13, Res.bind]
 
-theorem readSystemInfo_safe (s all : Bytes) (e : Endian) (hsz : SliceLen all.size) :
-    Safe (Bnd all) (readSystemInfo s all e) := by
-  unfold readSystemInfo
-  split
-  · exact safe_fail _
-  · exact safe_bind (readStringUtf16_safe _ _ _ hsz (by unfold Bnd K; omega)) (fun r _ => safe_pure _)
-
-/-- **C02.3 `decode_encode_partial`** — for every well-formed model, both byte orders, both memory
-    list forms: reading the encoded file succeeds, the byte order and the header flags are
-    recovered, and the THREAD LIST (ids, suspend counts, priorities, TEBs, stack bytes, context
-    bytes, in file order), the MEMORY served by `get_memory()` (bases and byte-identical contents in
-    file order; the 32-bit form drops the regions it cannot describe, i.e. the empty ones) and the
-    MEMORY-INFO LIST, the THREAD NAMES (a map by thread id, last duplicate wins; names of arbitrary
-    well-formed UTF-16) and the UNLOADED-MODULE LIST are exactly the model's — whatever raw streams
-    were listed earlier in the directory under the same types (last duplicate wins).
-
-    FULL STATEMENT (the goal; see notes/C02.md for the gap):
-      theorem decode_encode : WellFormed' m f → decode (encode m e f) = .ok (report m e f)
-    What is missing for it are the same three-step arguments (records fit / records decode / stream
-    reads back) for the module list (names + the four CodeView shapes), exception and system
-    info; their ingredients — strings (`readStringUtf16_enc`), both
-    list headers, records, placement of every out-of-band group (`oob_placed`), the served stream
-    (`getRawStream_encode`) — are proved, and the engine compares `decode`, `encode` and `report`
-    with the real reader on those streams on every run. Here they are only shown to be read without a
-    panic outcome (C01's lemmas). -/
-theorem decode_encode_partial {m : DumpModel} {f : MemForm} (wf : WellFormed m f) (e : Endian) :
-    ∃ r, decode (encode m e f) = .ok r ∧ r.endian = e ∧ r.flags = m.flags ∧
-      r.threads = (report m e f).threads ∧ r.memory = (report m e f).memory ∧ r.memInfo = (report m e f).memInfo ∧
-      r.threadNames = (report m e f).threadNames ∧ r.unloaded = (report m e f).unloaded := by
+/-- **C02.3 `decode_encode`** — for every well-formed model (lists of any length, any field values
+    that fit the wire widths, names/CSD strings of arbitrary Unicode scalar values, all four
+    CodeView shapes or none, addresses up to 2^64-1, a file below 4 GiB), both byte orders, both
+    memory-list forms, whatever raw streams were listed earlier in the directory under the same
+    types: reading the encoded file yields EXACTLY `report m e f` — the byte order, the header
+    flags, the THREAD LIST (all fields, stack bytes, context bytes, file order), the MODULE LIST
+    (all fields, the 13 version words, names, CodeView records; entries with a bad image size
+    skipped), the MEMORY served by `get_memory()`, the MEMORY-INFO LIST, the THREAD NAMES (map by
+    id, last wins), the UNLOADED-MODULE LIST, the EXCEPTION stream (record, 15 parameters, context
+    bytes; `StreamNotFound` when the model has none) and SYSTEM INFO (all scalar fields, the 24 CPU
+    bytes, the CSD-version string; `StreamNotFound` when the model has none) and MISC INFO (the
+    revision 1..5 the stream's length selects — bytes after the struct are ignored — and every
+    scalar of that revision, flag-guarded or not; `StreamNotFound` when the model has none) and the
+    HANDLE DATA stream (descriptors of either kind in file order: all scalar fields, the two
+    optional names, and — second kind — the object-information chain; `StreamNotFound` when the
+    model has none) and the LINUX MAPS text stream (every entry in file order: both addresses,
+    the permission bits, offset, device numbers, inode and the path column in each of its
+    spellings; `StreamNotFound` when the model has none) and CRASHPAD INFO (version, report and
+    client id, the simple-annotations dictionary as a map by key — last duplicate wins —, and per
+    module its index, version, list annotations in file order, dictionary, and annotation objects
+    by name with their typed values; the per-module budget of copied string bytes is never
+    exhausted; `StreamNotFound` when the model has none). -/
+theorem decode_encode {m : DumpModel} {f : MemForm} (wf : WellFormed m f) (e : Endian) :
+    decode (encode m e f) = .ok (report m e f) := by
   have hd := readDump_encode wf e
   have hpl := oob_placed m e f
   have hall : (encode m e f).size < 2 ^ 32 := by rw [hpl.size]; exact wf.size
-  have hslice : SliceLen (encode m e f).size := by unfold SliceLen; omega
   have hoff : 0 < oobStart m f := by unfold oobStart; omega
   have hstart : (oobOffsets m f).threads = oobStart m f := rfl
   have hmemoff : 0 < (oobOffsets m f).memory := by simp only [oobOffsets]; omega
   let d : Dump := ⟨e, encHeaderVal (allStreams m e f).length m.flags, dirMap (allStreams m e f), (allStreams m e f).length⟩
-  have hdb := default_bounded
   -- threads
   obtain ⟨tr, ht1, ht2⟩ := readThreadList_enc MemSizes.default (s := (encThreadList e m.pad (oobOffsets m f).threads m.threads).toArray)
     (all := encode m e f) (e := e) (pad := m.pad) (off := (oobOffsets m f).threads) (ts := m.threads) (by simp) wf.threads
     (by rw [hstart]; exact hoff) hpl.threads hall (by simpa using (core_stream_small wf e (core_threads m e f)).1)
   have h1 := streamRes_ok (d := d) (reader := fun s => readThreadList MemSizes.default s (encode m e f) e)
     (getRawStream_encode wf e ST_THREAD_LIST _ (core_threads m e f) d rfl) ht1
+  -- modules
+  obtain ⟨mr, hm1, hm2⟩ := readModuleList_enc MemSizes.default
+    (s := (encModuleList e m.pad (oobOffsets m f).modules m.modules).toArray) (all := encode m e f) (e := e)
+    (pad := m.pad) (off := (oobOffsets m f).modules) (mods := m.modules) (by simp) wf.modules hpl.modules hall
+    (by simpa using (core_stream_small wf e (core_modules m e f)).1)
+  have h2 := streamRes_ok (d := d) (reader := fun s => readModuleList MemSizes.default s (encode m e f) e)
+    (getRawStream_encode wf e ST_MODULE_LIST _ (core_modules m e f) d rfl) hm1
   -- memory info
   obtain ⟨ir, hi1, hi2⟩ := readMemoryInfoList_enc MemSizes.default (s := (encMemInfoList e m.memInfo).toArray) (e := e)
     (is := m.memInfo) (by simp) wf.memInfo (by simpa using (core_stream_small wf e (core_memInfo m e f)).1)
   have h5 := streamRes_ok (d := d) (reader := fun s => readMemoryInfoList MemSizes.default s e)
     (getRawStream_encode wf e ST_MEMORY_INFO_LIST _ (core_memInfo m e f) d rfl) hi1
-  -- the streams whose round trip is not shown here: total by C01
-  obtain ⟨mo, h2⟩ := streamRes_total (B := Bnd (encode m e f)) d (encode m e f) ST_MODULE_LIST
-    (fun s => readModuleList MemSizes.default s (encode m e f) e) (fun s hs => readModuleList_safe _ hdb _ _ _ hslice hs)
   -- thread names
   have hn1 := readThreadNames_enc MemSizes.default (s := (encThreadNames e m.pad (oobOffsets m f).names m.threadNames).toArray)
     (all := encode m e f) (e := e) (pad := m.pad) (off := (oobOffsets m f).names) (ns := m.threadNames) (by simp)
@@ -243,10 +363,97 @@ theorem decode_encode_partial {m : DumpModel} {f : MemForm} (wf : WellFormed m f
     rw [List.any_eq_false]
     intro u hu
     simp [(wf.unloaded u hu).2.2.2.2.1]
-  obtain ⟨x, h8⟩ := streamRes_total (B := Bnd (encode m e f)) d (encode m e f) ST_EXCEPTION
-    (fun s => readException s (encode m e f) e) (fun s _ => readException_safe _ _ _)
-  obtain ⟨sy, h9⟩ := streamRes_total (B := Bnd (encode m e f)) d (encode m e f) ST_SYSTEM_INFO
-    (fun s => readSystemInfo s (encode m e f) e) (fun s _ => readSystemInfo_safe _ _ _ hslice)
+  -- exception
+  have h8 : ∃ x, streamRes d (encode m e f) ST_EXCEPTION (fun s => readException s (encode m e f) e) = .ok x ∧
+      x.map (rexceptionOf (encode m e f)) = (report m e f).exception := by
+    cases hx : m.exception with
+    | none =>
+      refine ⟨_, streamRes_notFound (getRawStream_encode_none wf e ST_EXCEPTION (no_exception m f hx) d rfl), ?_⟩
+      simp [report, hx, Except.map]
+    | some x =>
+      have hctx : Has (encode m e f).toList (oobOffsets m f).exc x.ctx := by
+        have := hpl.exc; simpa [excCtx, hx] using this
+      obtain ⟨r, hr1, hr2⟩ := readException_enc (s := (encException e (oobOffsets m f).exc x).toArray)
+        (all := encode m e f) (e := e) (off := (oobOffsets m f).exc) (x := x) (by simp) (wf.exception x hx) hctx hall
+      refine ⟨_, streamRes_ok (getRawStream_encode wf e ST_EXCEPTION _ (core_exception m e f hx) d rfl) hr1, ?_⟩
+      simp [report, hx, Except.map, hr2]
+  obtain ⟨xr, h8, hx2⟩ := h8
+  -- system info
+  have h9 : streamRes d (encode m e f) ST_SYSTEM_INFO (fun s => readSystemInfo s (encode m e f) e) =
+      .ok (report m e f).sysInfo := by
+    cases hs : m.sysInfo with
+    | none =>
+      have := streamRes_notFound (d := d) (reader := fun s => readSystemInfo s (encode m e f) e)
+        (getRawStream_encode_none wf e ST_SYSTEM_INFO (no_sysInfo m f hs) d rfl)
+      simpa [report, hs] using this
+    | some x =>
+      have hcsd : Has (encode m e f).toList (oobOffsets m f).csd (encString e x.csd) := by
+        have := hpl.csd; simpa [csdString, hs] using this
+      have hr := readSystemInfo_enc (s := (encSysInfo e (oobOffsets m f).csd x).toArray)
+        (all := encode m e f) (e := e) (off := (oobOffsets m f).csd) (x := x) (by simp) (wf.sysInfo x hs) hcsd hall
+      have := streamRes_ok (d := d) (reader := fun s => readSystemInfo s (encode m e f) e)
+        (getRawStream_encode wf e ST_SYSTEM_INFO _ (core_sysInfo m e f hs) d rfl) hr
+      simpa [report, hs] using this
+  -- misc info
+  have h10 : streamRes d (encode m e f) ST_MISC_INFO (fun s => readMiscInfo s e) = .ok (report m e f).miscInfo := by
+    cases hs : m.miscInfo with
+    | none =>
+      have := streamRes_notFound (d := d) (reader := fun s => readMiscInfo s e)
+        (getRawStream_encode_none wf e ST_MISC_INFO (no_miscInfo m f hs) d rfl)
+      simpa [report, hs] using this
+    | some x =>
+      have hr := readMiscInfo_enc (s := (encMiscInfo e x).toArray) (e := e) (x := x) (by simp) (wf.miscInfo x hs)
+      have := streamRes_ok (d := d) (reader := fun s => readMiscInfo s e)
+        (getRawStream_encode wf e ST_MISC_INFO _ (core_miscInfo m e f hs) d rfl) hr
+      simpa [report, hs] using this
+  -- handle data
+  have h11 : ∃ x, streamRes d (encode m e f) ST_HANDLE_DATA_STREAM
+      (fun s => readHandleData MemSizes.default s (encode m e f) e) = .ok x ∧
+      x.map (fun l => l.map rhandleOf) = (report m e f).handles := by
+    cases hs : m.handles with
+    | none =>
+      refine ⟨_, streamRes_notFound (getRawStream_encode_none wf e ST_HANDLE_DATA_STREAM (no_handles m f hs) d rfl), ?_⟩
+      simp [report, hs, Except.map]
+    | some x =>
+      have hoob : Has (encode m e f).toList (oobOffsets m f).handles (oobHandles e x.v2 (oobOffsets m f).handles x.handles) := by
+        have := hpl.handles; simpa [handlesOob, hs] using this
+      have hpos : 0 < (oobOffsets m f).handles := by simp only [oobOffsets]; omega
+      obtain ⟨r, hr1, hr2⟩ := readHandleData_enc MemSizes.default
+        (s := (encHandleData e (oobOffsets m f).handles x).toArray) (all := encode m e f) (e := e)
+        (off := (oobOffsets m f).handles) (x := x) (by simp) (wf.handles x hs) hpos hoob hall
+        (by simpa using (core_stream_small wf e (core_handles m e f hs)).1)
+      refine ⟨_, streamRes_ok (getRawStream_encode wf e ST_HANDLE_DATA_STREAM _ (core_handles m e f hs) d rfl) hr1, ?_⟩
+      simp [report, hs, Except.map, hr2]
+  obtain ⟨hnr, h11, hn2⟩ := h11
+  -- Linux maps
+  have h12 : streamRes d (encode m e f) ST_LINUX_MAPS (fun s => readLinuxMaps s) = .ok (report m e f).linuxMaps := by
+    cases hs : m.linuxMaps with
+    | none =>
+      have := streamRes_notFound (d := d) (reader := fun s => readLinuxMaps s)
+        (getRawStream_encode_none wf e ST_LINUX_MAPS (no_linuxMaps m f hs) d rfl)
+      simpa [report, hs] using this
+    | some x =>
+      have hr := readLinuxMaps_enc (s := (encLinuxMaps x).toArray) (xs := x) (by simp) (wf.linuxMaps x hs)
+      have := streamRes_ok (d := d) (reader := fun s => readLinuxMaps s)
+        (getRawStream_encode wf e ST_LINUX_MAPS _ (core_linuxMaps m e f hs) d rfl) hr
+      simpa [report, hs] using this
+  -- Crashpad info
+  have h13 : ∃ x, streamRes d (encode m e f) ST_CRASHPAD
+      (fun s => readCrashpadInfoRaw MemSizes.default s (encode m e f) e) = .ok x ∧
+      x.map rcrashpadOf = (report m e f).crashpad := by
+    cases hs : m.crashpad with
+    | none =>
+      refine ⟨_, streamRes_notFound (getRawStream_encode_none wf e ST_CRASHPAD (no_crashpad m f hs) d rfl), ?_⟩
+      simp [report, hs, Except.map]
+    | some x =>
+      have hoob : Has (encode m e f).toList (oobOffsets m f).crashpad (crashpadOobOf e (oobOffsets m f).crashpad x) := by
+        have := hpl.crashpad; simpa [crashpadOob, hs] using this
+      obtain ⟨r, hr1, hr2⟩ := readCrashpadInfoRaw_enc MemSizes.default
+        (s := (encCrashpad e (oobOffsets m f).crashpad x).toArray) (all := encode m e f) (e := e)
+        (off := (oobOffsets m f).crashpad) (x := x) (by simp) (wf.crashpad x hs) hoob hall
+      refine ⟨_, streamRes_ok (getRawStream_encode wf e ST_CRASHPAD _ (core_crashpad m e f hs) d rfl) hr1, ?_⟩
+      simp [report, hs, Except.map, hr2]
+  obtain ⟨cpr, h13, hc2⟩ := h13
   -- memory, by form
   cases f with
   | mem =>
@@ -258,13 +465,10 @@ theorem decode_encode_partial {m : DumpModel} {f : MemForm} (wf : WellFormed m f
       (getRawStream_encode wf e ST_MEMORY_LIST _ (core_memory m e) d rfl) hr1
     have h4 := streamRes_notFound (d := d) (reader := fun s => readMemory64List MemSizes.default s (encode m e .mem) e)
       (getRawStream_encode_none wf e ST_MEMORY64_LIST (no_memory64_in_mem m) d rfl)
-    obtain ⟨r, hr, he, hfl, hth, _, hmem, hmi, htn, hun, _⟩ := decode_of hd h1 h2 h3 h4 h5 h6 h7 h8 h9
-    refine ⟨r, hr, he, hfl, ?_, ?_, ?_, ?_, ?_⟩
-    · rw [hth]; simp [report, Except.map, ht2]
-    · rw [hmem]; simp [report, Except.map, pickMemory, hr2]
-    · rw [hmi]; simp [report, Except.map, hi2]
-    · rw [htn]; rfl
-    · rw [hun]; simp [report, Except.map, hu2, hnobad]
+    rw [decode_of hd h1 h2 h3 h4 h5 h6 h7 h8 h9 h10 h11 h12 h13]
+    simp only [hx2, hn2, hc2]
+    simp only [Except.map, pickMemory, ht2, hm2, hr2, hi2, hu2]
+    simp [report, hnobad, encHeaderVal]
   | mem64 =>
     obtain ⟨rr, hr1, hr2⟩ := readMemory64List_enc MemSizes.default
       (s := (encMemory64List e (oobOffsets m .mem64).memory m.memory).toArray) (all := encode m e .mem64) (e := e)
@@ -274,26 +478,55 @@ theorem decode_encode_partial {m : DumpModel} {f : MemForm} (wf : WellFormed m f
       (getRawStream_encode wf e ST_MEMORY64_LIST _ (core_memory64 m e) d rfl) hr1
     have h3 := streamRes_notFound (d := d) (reader := fun s => readMemoryList MemSizes.default s (encode m e .mem64) e)
       (getRawStream_encode_none wf e ST_MEMORY_LIST (no_memory_in_mem64 m) d rfl)
-    obtain ⟨r, hr, he, hfl, hth, _, hmem, hmi, htn, hun, _⟩ := decode_of hd h1 h2 h3 h4 h5 h6 h7 h8 h9
-    refine ⟨r, hr, he, hfl, ?_, ?_, ?_, ?_, ?_⟩
-    · rw [hth]; simp [report, Except.map, ht2]
-    · rw [hmem]; simp [report, Except.map, pickMemory, hr2]
-    · rw [hmi]; simp [report, Except.map, hi2]
-    · rw [htn]; rfl
-    · rw [hun]; simp [report, Except.map, hu2, hnobad]
+    rw [decode_of hd h1 h2 h3 h4 h5 h6 h7 h8 h9 h10 h11 h12 h13]
+    simp only [hx2, hn2, hc2]
+    simp only [Except.map, pickMemory, ht2, hm2, hr2, hi2, hu2]
+    simp [report, hnobad, encHeaderVal]
 
-/-- non-vacuity of `WellFormed`: a model with a thread, two regions (one empty), a memory-info
-    entry and a duplicate thread-list entry earlier in the directory -/
+/-- non-vacuity of `WellFormed`: a model with a thread, five modules (PDB 7.0, PDB 2.0, ELF build id,
+    unknown signature, no record; one of them with a bad image size), two regions (one empty), a
+    memory-info entry, an exception, system info with a non-BMP CSD string, and a duplicate
+    thread-list entry earlier in the directory -/
 def exampleModel : DumpModel :=
   { flags := 5, pad := true,
     threads := [⟨7, 1, 2, 3, 4096, 8192, [1, 2, 3], [9, 9]⟩],
-    modules := [], memory := [⟨4096, [10, 11, 12, 13]⟩, ⟨100, []⟩], memInfo := [⟨1, 2, 3, 4, 5, 6, 7⟩],
-    threadNames := [(7, [0x61])], unloaded := [⟨8192, 4096, 1, 2, [0x62]⟩], exception := none, sysInfo := none,
-    extra := [(3, [0, 0])] }
+    modules := [⟨4194304, 4096, 1, 2, [1, 2, 3, 4, 5, 6, 7, 8, 9, 10, 11, 12, 13], [0x61, 0x1F600],
+                  some (.pdb70 0xABCD1234 0xF00D 0xBEEF [1, 2, 3, 4, 5, 6, 7, 8] 1 [0x61, 0])⟩,
+                ⟨8388608, 0, 1, 2, [0, 0, 0, 0, 0, 0, 0, 0, 0, 0, 0, 0, 0], [], some (.pdb20 1 2 3 [0x62])⟩,
+                ⟨12582912, 16, 1, 2, [0, 0, 0, 0, 0, 0, 0, 0, 0, 0, 0, 0, 0], [0x6c], some (.elf [1, 2, 3])⟩,
+                ⟨16777216, 16, 1, 2, [0, 0, 0, 0, 0, 0, 0, 0, 0, 0, 0, 0, 0], [0x6d], some (.unknown 7 [1])⟩,
+                ⟨20971520, 16, 1, 2, [0, 0, 0, 0, 0, 0, 0, 0, 0, 0, 0, 0, 0], [0x6e], none⟩],
+    memory := [⟨4096, [10, 11, 12, 13]⟩, ⟨100, []⟩], memInfo := [⟨1, 2, 3, 4, 5, 6, 7⟩],
+    threadNames := [(7, [0x61])], unloaded := [⟨8192, 4096, 1, 2, [0x62]⟩],
+    exception := some ⟨7, 11, 0, 0, 1234, 2, [1, 2, 3, 4, 5, 6, 7, 8, 9, 10, 11, 12, 13, 14, 15], [0xaa]⟩,
+    sysInfo := some ⟨9, 6, 0, 4, 1, 10, 0, 19041, 3, 0,
+      [0, 1, 2, 3, 4, 5, 6, 7, 8, 9, 10, 11, 12, 13, 14, 15, 16, 17, 18, 19, 20, 21, 22, 23], [0x53, 0x1F600]⟩,
+    extra := [(3, [0, 0])],
+    miscInfo := some ⟨2, [44, 7, 1234, 1, 2, 3, 3000, 2000, 3000, 1, 2], [0xee, 0xff]⟩,
+    handles := some ⟨true, [⟨0x44, some [0x46, 0x69, 0x6c, 0x65], none, 1, 2, 3, 4, [⟨1, 8⟩, ⟨9, 0⟩]⟩,
+                            ⟨0x48, none, some [0x1F600], 0, 0, 0, 0, []⟩]⟩,
+    linuxMaps := some [⟨0x400000, 0x40b000, 21, 0, 8, 1, 1234, .path [0x2f, 0x62, 0x69, 0x6e, 0x2f, 0xce, 0xba, 0x61]⟩,
+                       ⟨0x7ffd0000, 0x7ffd1000, 19, 0, 0, 0, 0, .stack⟩,
+                       ⟨0x7f000000, 0x7f001000, 3, 0, 0, 0, 0, .tstack 77⟩,
+                       ⟨0x1000, 0x2000, 11, 4096, 0, 5, 42, .vsys 0xaabbccdd⟩,
+                       ⟨0x3000, 0x2000, 0, 0, 0, 0, 0, .other [0x61, 0x6e, 0x6f, 0x6e]⟩,
+                       ⟨0, 0xffffffffffffffff, 16, 0, 0, 0, 0, .anonymous⟩],
+    crashpad := some
+      { version := 1, reportId := [1, 2, 3, 4, 5, 6, 7, 8, 9, 10, 11], clientId := [0, 0, 0, 0, 0, 0, 0, 0, 0, 0, 0],
+        simpleAnnotations := [([0x6b], [0x76]), ([0x61], []), ([0x6b], [0xce, 0xba])],
+        modules := [⟨3, 1, [[0x78], []], [([0x62], [0x63])],
+                     [.invalid [0x69], .string [0x73] [0x31, 0x32], .other [0x75] 0x8001 77, .other [0x6e] 5 0]⟩,
+                    ⟨0, 1, [], [], []⟩] } }
+
+theorem validName_of_all (cs : List Nat) (h : cs.all (fun c => decide (c < 0xD800 ∨ (0xE000 ≤ c ∧ c < 0x110000))) = true) :
+    ValidName cs := by
+  intro c hc
+  have := List.all_eq_true.mp h c hc
+  simpa [ValidScalar] using this
 
 example : WellFormed exampleModel .mem ∧ WellFormed exampleModel .mem64 := by
   constructor <;>
-  · refine ⟨by decide, by decide, ?_, ?_, ?_, ?_, ?_, ?_⟩
+  · refine ⟨by decide, by decide +kernel, ?_, ?_, ?_, ?_, ?_, ?_, ?_, ?_, ?_, ?_, ?_, ?_, ?_⟩
     · intro t ht
       simp only [exampleModel, List.mem_singleton] at ht
       subst ht
@@ -308,16 +541,94 @@ example : WellFormed exampleModel .mem ∧ WellFormed exampleModel .mem64 := by
     · intro n hn
       simp only [exampleModel, List.mem_cons, List.not_mem_nil, or_false] at hn
       subst hn
-      exact ⟨by decide, by intro c hc; simp only [List.mem_cons, List.not_mem_nil, or_false] at hc; subst hc; left; decide⟩
+      exact ⟨by decide, validName_of_all _ (by decide)⟩
     · intro u hu
       simp only [exampleModel, List.mem_cons, List.not_mem_nil, or_false] at hu
       subst hu
-      exact ⟨by decide, by decide, by decide, by decide, by decide,
-        by intro c hc; simp only [List.mem_cons, List.not_mem_nil, or_false] at hc; subst hc; left; decide⟩
+      exact ⟨by decide, by decide, by decide, by decide, by decide, validName_of_all _ (by decide)⟩
+    · intro x hx
+      simp only [exampleModel, List.mem_cons, List.not_mem_nil, or_false] at hx
+      rcases hx with rfl | rfl | rfl | rfl | rfl <;>
+        refine ⟨by decide, by decide, by decide, by decide, by decide, by decide, validName_of_all _ (by decide), ?_⟩ <;>
+        intro cv hcv <;> simp only [Option.some.injEq, reduceCtorEq] at hcv <;> subst hcv <;>
+        simp only [CvFits] <;> decide
+    · intro x hx
+      simp only [exampleModel, Option.some.injEq] at hx
+      subst hx
+      exact ⟨by decide, by decide, by decide, by decide, by decide, by decide, by decide, by decide⟩
+    · intro x hx
+      simp only [exampleModel, Option.some.injEq] at hx
+      subst hx
+      exact ⟨by decide, by decide, by decide, by decide, by decide, by decide, by decide, by decide, by decide,
+        by decide, by decide, validName_of_all _ (by decide)⟩
+    · intro x hx
+      simp only [exampleModel, Option.some.injEq] at hx
+      subst hx
+      exact ⟨by decide, by decide, fits_of_fitsB (by decide), by decide⟩
+    · intro x hx h hh
+      simp only [exampleModel, Option.some.injEq] at hx
+      subst hx
+      simp only [List.mem_cons, List.not_mem_nil, or_false] at hh
+      rcases hh with rfl | rfl
+      · refine ⟨by decide, by decide, by decide, by decide, by decide, validName_of_all _ (by decide), trivial, ?_⟩
+        intro i hi
+        simp only [List.mem_cons, List.not_mem_nil, or_false] at hi
+        rcases hi with rfl | rfl <;> decide
+      · refine ⟨by decide, by decide, by decide, by decide, by decide, trivial, validName_of_all _ (by decide), ?_⟩
+        intro i hi
+        simp at hi
+    · intro x hx en hen
+      simp only [exampleModel, Option.some.injEq] at hx
+      subst hx
+      simp only [List.mem_cons, List.not_mem_nil, or_false] at hen
+      rcases hen with rfl | rfl | rfl | rfl | rfl | rfl
+      · refine ⟨by decide, by decide, by decide, by decide, by decide, by decide, by decide, ?_, by decide, by decide⟩
+        refine ⟨by decide, .inr ⟨⟨0x2f, rfl, by decide⟩, ⟨0x61, rfl, by decide⟩⟩, by decide, by decide, by decide, by decide⟩
+      · exact ⟨by decide, by decide, by decide, by decide, by decide, by decide, by decide, trivial, by decide, by decide⟩
+      · exact ⟨by decide, by decide, by decide, by decide, by decide, by decide, by decide,
+          (by show (77 : Nat) < 2 ^ 32; decide), by decide, by decide⟩
+      · exact ⟨by decide, by decide, by decide, by decide, by decide, by decide, by decide,
+          (by show (0xaabbccdd : Nat) < 2 ^ 32; decide), by decide, by decide⟩
+      · exact ⟨by decide, by decide, by decide, by decide, by decide, by decide, by decide, ⟨by decide, by decide⟩,
+          by decide, by decide⟩
+      · exact ⟨by decide, by decide, by decide, by decide, by decide, by decide, by decide, trivial, by decide, by decide⟩
+    · intro x hx
+      simp only [exampleModel, Option.some.injEq] at hx
+      subst hx
+      refine ⟨by decide, by decide, ?_, ?_, ?_, ?_⟩
+      · exact ⟨rfl, by decide, by decide, by decide, by decide⟩
+      · exact ⟨rfl, by decide, by decide, by decide, by decide⟩
+      · intro kv hkv
+        simp only [List.mem_cons, List.not_mem_nil, or_false] at hkv
+        rcases hkv with rfl | rfl | rfl <;> exact ⟨by decide, by decide⟩
+      · intro y hy
+        simp only [List.mem_cons, List.not_mem_nil, or_false] at hy
+        rcases hy with rfl | rfl
+        · refine ⟨by decide, by decide, ?_, ?_, ?_⟩
+          · intro s hs
+            simp only [List.mem_cons, List.not_mem_nil, or_false] at hs
+            rcases hs with rfl | rfl <;> decide
+          · intro kv hkv
+            simp only [List.mem_cons, List.not_mem_nil, or_false] at hkv
+            subst hkv
+            exact ⟨by decide, by decide⟩
+          · intro a ha
+            simp only [List.mem_cons, List.not_mem_nil, or_false] at ha
+            rcases ha with rfl | rfl | rfl | rfl
+            · show utf8Valid _ = true; decide
+            · exact ⟨by decide, by decide⟩
+            · exact ⟨by decide, by decide, by decide, by decide, by decide⟩
+            · exact ⟨by decide, by decide, by decide, by decide, by decide⟩
+        · exact ⟨by decide, by decide, by simp, by intro kv hkv; simp at hkv, by simp⟩
     · intro x hx
       simp only [exampleModel, List.mem_singleton] at hx
       subst hx
       decide
+
+/-- the theorem is not vacuous on a stream it newly covers: the model's third module (ELF) is in
+    the report, the second (image size 0) is not -/
+example : (report exampleModel .big .mem).modules = .ok (exampleModel.modules.eraseIdx 1) := by
+  simp [report, exampleModel, badImageSize, U64MAX]
 
 /-! ## 4. "byte-identical memory at every address of every region" -/
 
@@ -333,8 +644,7 @@ theorem memory_bytes_exact {m : DumpModel} {f : MemForm} (wf : WellFormed m f) (
     (j : Nat) (hj : j < r.bytes.length) :
     ∃ rep rs, decode (encode m e f) = .ok rep ∧ rep.memory = .ok rs ∧
       memoryByteAt rs (r.base + j) = some r.bytes[j] := by
-  obtain ⟨rep, h1, _, _, _, h2, _, _, _⟩ := decode_encode_partial wf e
-  refine ⟨rep, pre ++ r :: post, h1, by rw [h2, hm], ?_⟩
+  refine ⟨report m e f, pre ++ r :: post, decode_encode wf e, hm, ?_⟩
   rw [memoryByteAt_exact pre post r j hj hfit hiso]
   simp [hj]
 
@@ -370,19 +680,15 @@ example : memoryByteAt [⟨18446744073709551615, [226]⟩] 18446744073709551615 
 
 /-! ## 5. "The same model written little-endian or big-endian parses to the same result" -/
 
-/-- **C02.5 `endian_agnostic_partial`** — the two byte orders of one model decode to the same flags,
-    threads, memory, memory info, thread names and unloaded modules (the fields `decode_encode_partial` covers). For the remaining
-    fields see the FULL STATEMENT at `decode_encode_partial`; an ELF debug identifier is BY
-    DEFINITION the build id read as a GUID in the dump's byte order (`debugId`), so that one
-    derived field is the documented exception (notes/C02.md). -/
-theorem endian_agnostic_partial {m : DumpModel} {f : MemForm} (wf : WellFormed m f) :
+/-- **C02.5 `endian_agnostic`** — the two byte orders of one model decode to the same result: every
+    field of what the reader reports is equal, except the byte-order tag itself (which is recovered
+    correctly in both). One DERIVED string depends on that tag by definition — the debug identifier
+    of an ELF build id is the build id read as a GUID in the dump's byte order (`debugId e`, see
+    `ids_as_documented` and notes/C02.md) — the CodeView record it is derived from is equal. -/
+theorem endian_agnostic {m : DumpModel} {f : MemForm} (wf : WellFormed m f) :
     ∃ rl rb, decode (encode m .little f) = .ok rl ∧ decode (encode m .big f) = .ok rb ∧
-      rl.endian = .little ∧ rb.endian = .big ∧ rl.flags = rb.flags ∧ rl.threads = rb.threads ∧
-      rl.memory = rb.memory ∧ rl.memInfo = rb.memInfo ∧ rl.threadNames = rb.threadNames ∧ rl.unloaded = rb.unloaded := by
-  obtain ⟨rl, h1, h2, h3, h4, h5, h6, h7, h8⟩ := decode_encode_partial wf .little
-  obtain ⟨rb, g1, g2, g3, g4, g5, g6, g7, g8⟩ := decode_encode_partial wf .big
-  exact ⟨rl, rb, h1, g1, h2, g2, by rw [h3, g3], by rw [h4, g4]; rfl, by rw [h5, g5]; rfl, by rw [h6, g6]; rfl,
-    by rw [h7, g7]; rfl, by rw [h8, g8]; rfl⟩
+      rl.endian = .little ∧ rb.endian = .big ∧ { rl with endian := .big } = rb :=
+  ⟨report m .little f, report m .big f, decode_encode wf .little, decode_encode wf .big, rfl, rfl, rfl⟩
 
 /-! ## 6. "debug/code identifiers equal to the documented derivation from the CodeView record" -/
 
